@@ -104,7 +104,7 @@ func (w *world) step(i int, st simcore.Step) bool {
 			run.Fail("C07", "pool-missing", "pool", "created pool %d not found: %v", r.PoolID, err)
 			return false
 		}
-		w.pools = append(w.pools, &refPool{id: r.PoolID, d0: d0, d1: q, spacing: int64(sp), spread: sf, addr: pool.GetAddress(), spreadAdr: pool.GetSpreadRewardsAddress(), incAdr: pool.GetIncentivesAddress(), scaled: r.PoolID > w.threshold})
+		w.pools = append(w.pools, &refPool{id: r.PoolID, d0: d0, d1: q, spacing: int64(sp), spread: sf, addr: pool.GetAddress(), spreadAdr: pool.GetSpreadRewardsAddress(), incAdr: pool.GetIncentivesAddress(), scaled: r.PoolID > w.threshold, dustPrec: rnew()})
 		return true
 
 	case "pos":
@@ -216,6 +216,10 @@ func (w *world) step(i int, st simcore.Step) bool {
 		owner := ps.owner
 		delete(w.pos, ps.id)
 		pool.ops += 3
+		{
+			_, sq, _ := w.poolState(n.Ctx, pool)
+			w.notePrecision(pool, rmul(decToRat(np.Liquidity), rint(3)), sqrtAtTick(np.LowerTick), bigDecToRat(sq))
+		}
 		w.pos[np.PositionId] = &refPos{id: np.PositionId, owner: owner, pool: pool, lower: np.LowerTick, upper: np.UpperTick, liq: np.Liquidity, join: np.JoinTime, never: !w.inRange(pool, np.LowerTick, np.UpperTick), ent: map[string]*rat{}, tol: rnew(), tolUp: rnew()}
 		if np.LowerTick != ps.lower || np.UpperTick != ps.upper {
 			run.Fail("C07", "range-changed", "add", "add-to-position moved the range from [%d,%d) to [%d,%d)", ps.lower, ps.upper, np.LowerTick, np.UpperTick)
@@ -254,6 +258,10 @@ func (w *world) step(i int, st simcore.Step) bool {
 		ps.pool.ops++
 		ps.clean = false
 		ps.group = 0
+		{
+			_, sq, _ := w.poolState(n.Ctx, ps.pool)
+			w.notePrecision(ps.pool, decToRat(liq), sqrtAtTick(ps.lower), bigDecToRat(sq))
+		}
 		if liq.Equal(ps.liq) {
 			delete(w.pos, ps.id)
 			run.Probe("full-withdraw")
@@ -381,6 +389,20 @@ func (w *world) step(i int, st simcore.Step) bool {
 	return true
 }
 
+// notePrecision adds the sqrt-price-precision dust term of one operation moving liquidity liq.
+func (w *world) notePrecision(p *refPool, liq *rat, sqrts ...*rat) {
+	f := rint(1)
+	for _, s := range sqrts {
+		if s != nil && s.Sign() > 0 {
+			if inv := rquo(rint(1), rmul(s, s)); inv.Cmp(f) > 0 {
+				f = inv
+			}
+		}
+	}
+	t := rquo(rmul(rmul(liq, f), rint(4)), rfromInt(pow10(36).BigInt()))
+	p.dustPrec = radd(p.dustPrec, rfromInt(ceilRat(t)))
+}
+
 func (w *world) inRange(p *refPool, lower, upper int64) bool {
 	ct, _, _ := w.poolState(w.n.Ctx, p)
 	return lower <= ct && ct < upper
@@ -401,6 +423,8 @@ func (w *world) addPosition(p *refPool, owner int, r *cltypes.MsgCreatePositionR
 	lc.block, lc.pool, lc.lower, lc.upper, lc.group, lc.seq = n.Height, p.id, ps.lower, ps.upper, ps.group, w.seq
 	w.pos[ps.id] = ps
 	p.ops++
+	_, sq, _ := w.poolState(n.Ctx, p)
+	w.notePrecision(p, decToRat(ps.liq), sqrtAtTick(ps.lower), bigDecToRat(sq))
 }
 
 func bigDecToRat(d osmomath.BigDec) *rat {
@@ -582,6 +606,10 @@ func (w *world) swap(i int, st simcore.Step, fk string, fa int64) bool {
 	paidIn := inBefore.Sub(n.Balance(n.Ctx, trader, inDenom))
 	gotOut := n.Balance(n.Ctx, trader, outDenom).Sub(outBefore)
 	p.ops++
+	if ideal.feasible {
+		_, sq0, _ := w.poolState(ectx, p)
+		w.notePrecision(p, rmul(ideal.maxLiq, rint(int64(len(ideal.steps))+1)), bigDecToRat(sq0), ideal.endSqrt)
+	}
 	w.okOps++
 
 	// estimate == execution
